@@ -15,7 +15,8 @@
 (* stored.  The property-level clauses of C11 are evaluated on the real     *)
 (* data: P1 (lookups), P3 (peers), P4 (three per destination), P5 (bounds   *)
 (* per routing prefix, limit after a cleanup), P6 (no expired route after a *)
-(* cleanup), P7 (removals).                                                 *)
+(* cleanup), P7 (removals); calls of the table's read-only methods between  *)
+(* the operations are events of their own (ReadOnly).                       *)
 (***************************************************************************)
 EXTENDS Integers, Sequences, FiniteSets, TLC, Json
 
@@ -54,10 +55,18 @@ P6 == Ev.ev = "clean" => \A e \in After : e.src = "peer" \/ e.exp = "fresh"
 P7 == /\ Ev.ev = "rmnh" => \A e \in After : e.nh # Ev.peer
       /\ Ev.ev = "rmdis" => \A e \in After : e.dst # Ev.router /\ e.nh # Ev.router /\ Ev.router \notin ToSet(e.relays)
 OnlyShrinks == Ev.ev \in {"rmnh", "rmdis", "clean"} => After \subseteq entries
+(* "read": an exported read-only method of the table (Format - the          *)
+(* dashboard's table page -, LookupNearest, LookupNearestRoute,             *)
+(* LookupPossiblePaths, ...; Ev.fn) was called on the live table between    *)
+(* two operations.  Additions, removals and cleanups are the operations     *)
+(* that change the table: a reader call is a stuttering step of it, and     *)
+(* all the clauses (P1 on the lookups taken after the call first of all)    *)
+(* hold behind it as behind every operation.                                *)
+ReadOnly == Ev.ev = "read" => After = entries
 
 Step ==
   /\ IF Ev.ev = "reset" THEN After = {}
-     ELSE P1 = TRUE /\ P2 = TRUE /\ P3 = TRUE /\ P4 = TRUE /\ P5 = TRUE /\ P6 = TRUE /\ P7 = TRUE /\ OnlyShrinks = TRUE
+     ELSE P1 = TRUE /\ P2 = TRUE /\ P3 = TRUE /\ P4 = TRUE /\ P5 = TRUE /\ P6 = TRUE /\ P7 = TRUE /\ OnlyShrinks = TRUE /\ ReadOnly = TRUE
   /\ entries' = After /\ prev' = entries
 
 Next == l <= Len(Trace) /\ l' = l + 1 /\ Step
